@@ -311,8 +311,40 @@ def m_index_range(E, st, fr, bi, callee, args, dest_ty):
             while type(q) is Pt and q.key is not None and type(E.load(st, q.key, q.proj)) is Pt:
                 q = E.load(st, q.key, q.proj)
             return ret1(Pt(q.key, q.proj, True), st)
-        raise Unsupported("mutable sub-slice")
+        q = p
+        while type(q) is Pt and q.key is not None and type(E.load(st, q.key, q.proj)) is Pt:
+            q = E.load(st, q.key, q.proj)
+        # a mutable window into the parent: only copy_from_slice / fill through it are modelled
+        return ret1(Md("mslice", {"parent": Pt(q.key, q.proj, True), "lo": lo, "len": newlen}), st)
     return ret1(Pt(key), st)
+
+
+def m_copy_from_slice(E, st, fr, bi, callee, args, dest_ty):
+    """<[T]>::copy_from_slice(&mut self, src): lengths must agree (panic otherwise); element-wise copy"""
+    dst, src = args[0], as_seq(E, st, args[1])
+    if type(dst) is Md and dst.kind == "mslice":
+        parent = as_seq(E, st, dst.d["parent"])
+        ok = E.decide_cmp(st, "Eq", dst.d["len"], src.len) is True
+        obligation(E, fr, bi, "panic", ok, f"copy_from_slice lengths {st.itv[dst.d['len'].vid]} vs {st.itv[src.len.vid]}", "copy_from_slice len == src.len")
+        lo, n = st.const(dst.d["lo"]), st.const(src.len)
+        pn = st.const(parent.len)
+        phead = parent.head
+        if phead is None and pn is not None and pn <= 64:
+            phead = {i: parent.elem for i in range(pn)}        # e.g. `[0u8; 16]`: every position holds the repeated element
+        if lo is not None and n is not None and phead is not None and src.head and len(src.head) == n:
+            h = dict(phead)
+            for i in range(n):
+                h[lo + i] = src.head[i]
+            new = Sq(E.join_vals(st, E._flat_elem(st, parent), E._flat_elem(st, src)), parent.len, h, None)
+        else:
+            new = Sq(E.join_vals(st, E._flat_elem(st, parent), E._flat_elem(st, src)), parent.len, None, None)
+        write_through(E, st, dst.d["parent"], new)
+        return ret1(UNIT, st)
+    d = as_seq(E, st, dst)
+    ok = E.decide_cmp(st, "Eq", d.len, src.len) is True
+    obligation(E, fr, bi, "panic", ok, f"copy_from_slice lengths {st.itv[d.len.vid]} vs {st.itv[src.len.vid]}", "copy_from_slice len == src.len")
+    write_through(E, st, dst, Sq(src.elem, d.len, src.head, None))
+    return ret1(UNIT, st)
 
 
 def m_split_at(E, st, fr, bi, callee, args, dest_ty):
@@ -446,6 +478,20 @@ def m_slice_chunks(E, st, fr, bi, callee, args, dest_ty):
         obligation(E, fr, bi, "panic", False, "chunk size may be zero", "chunks")
     inner = Md("iter", {"k": "slice", "src": p, "pos": usize(E, st, 0), "end": s.len, "mut": False, "byref": True})
     return ret1(Md("iter", {"k": "chunks", "inner": inner, "size": args[1]}), st)
+
+
+def m_slice_chunks_exact(E, st, fr, bi, callee, args, dest_ty):
+    p = args[0]
+    while type(p) is Pt and p.key is not None and type(E.load(st, p.key, p.proj)) is Pt:
+        p = E.load(st, p.key, p.proj)
+    s = as_seq(E, st, p)
+    size = st.const(args[1])
+    if size is None or size < 1:
+        obligation(E, fr, bi, "panic", st.lo(args[1]) >= 1, "chunk size may be zero", "chunks_exact")
+        return None
+    usz = E.ctx.usize_ty()
+    n = E.binop(st, "Div", s.len, E.ctx.const_int(st, size, usz), usz, False)
+    return ret1(Md("iter", {"k": "vchunks", "src": p, "pos": usize(E, st, 0), "end": n, "size": size}), st)
 
 
 def m_vec_into_iter(E, st, fr, bi, callee, args, dest_ty):
@@ -644,6 +690,56 @@ def it_next(E, st, fr, bi, it):
             d2["b"] = nb
             outs.append((item2, Md("iter", d2), s3))
         return outs
+    if k == "slice_rev":
+        pos, end = it.d["pos"], it.d["end"]
+        r = E.decide_cmp(st, "Lt", pos, end)
+        outs = []
+        if r is not False:
+            s2 = st if r is True else st.copy()
+            try:
+                if r is None:
+                    E.assume_cmp(s2, "Lt", pos.vid, end.vid)
+                one = E.ctx.const_int(s2, 1, pos.ty)
+                nend = E.binop(s2, "Sub", end, one, pos.ty, False)
+                src = it.d["src"]
+                if it.d["byref"]:
+                    item = Pt(src.key, src.proj + (("i", nend, None),), it.d["mut"])
+                else:
+                    item = E.seq_read(s2, E.load(s2, src.key, src.proj), nend)
+                d = dict(it.d)
+                d["end"] = nend
+                outs.append((item, Md("iter", d), s2))
+            except Diverge:
+                pass
+        if r is not True:
+            s3 = st if r is False else st.copy()
+            try:
+                if r is None:
+                    E.assume_cmp(s3, "Ge", pos.vid, end.vid)
+                outs.append((None, it, s3))
+            except Diverge:
+                pass
+        return outs
+    if k == "vchunks":
+        # <[T]>::chunks_exact(size): chunk number i is the view s[i*size .. (i+1)*size]
+        sub = Md("iter", {"k": "range", "pos": it.d["pos"], "end": it.d["end"]})
+        outs = []
+        for idx, ni, s2 in it_next(E, st, fr, bi, sub):
+            d = dict(it.d)
+            d["pos"] = ni.d["pos"]
+            if idx is None:
+                outs.append((None, Md("iter", d), s2))
+                continue
+            src = as_seq(E, s2, it.d["src"])
+            size = it.d["size"]
+            c = s2.const(idx)
+            head = None
+            if src.head and c is not None:
+                head = {k_ - c * size: v for k_, v in src.head.items() if c * size <= k_ < (c + 1) * size} or None
+            key = ("h", "vchunk", fr.id, bi, c if c is not None else "any")
+            s2.store[key] = Sq(src.elem, E.ctx.const_int(s2, size, usz), head, None)
+            outs.append((Pt(key), Md("iter", d), s2))
+        return outs
     if k == "arith":
         n = st.const(it.d["n"])
         if n is None:
@@ -756,7 +852,7 @@ def it_len(E, st, it):
         return z
     if k == "arith":
         return it.d["n"]
-    if k in ("slice", "range", "range_rev", "bits"):
+    if k in ("slice", "slice_rev", "range", "range_rev", "bits", "vchunks"):
         pos, end = it.d["pos"], it.d["end"]
         r = E.decide_cmp(st, "Le", pos, end)
         if r is True:
@@ -831,7 +927,7 @@ def it_smash(E, st, it):
     """iterator with its position forgotten (any position between pos and end)"""
     k = it.d["k"]
     d = dict(it.d)
-    if k in ("slice", "range", "bits"):
+    if k in ("slice", "range", "bits", "vchunks"):
         pos, end = it.d["pos"], it.d["end"]
         lo = st.lo(pos)
         hi = max(lo, st.hi(end))
@@ -840,7 +936,7 @@ def it_smash(E, st, it):
         st.add_fact(p.vid, end.vid, 0)
         d["pos"] = p
         return Md("iter", d)
-    if k == "range_rev":
+    if k in ("range_rev", "slice_rev"):
         pos, end = it.d["pos"], it.d["end"]
         e = E.ctx.mk_int(st, st.lo(pos), st.hi(end), pos.ty)
         st.add_fact(e.vid, end.vid, 0)
@@ -959,7 +1055,7 @@ def m_iter_adapt(kind):
         if kind in ("copied", "cloned"):
             return ret1(Md("iter", {"k": kind, "inner": it}), st)
         if kind == "enumerate":
-            if it.d["k"] in ("slice", "range") and st.const(it.d["pos"]) == 0:
+            if it.d["k"] in ("slice", "range", "vchunks") and st.const(it.d["pos"]) == 0:
                 return ret1(Md("iter", {"k": "enumerate", "inner": it, "count": it.d["pos"], "alias": True}), st)
             return ret1(Md("iter", {"k": "enumerate", "inner": it, "count": usize(E, st, 0), "alias": False}), st)
         if kind == "zip":
@@ -995,6 +1091,13 @@ def m_iter_adapt(kind):
         if kind == "rev":
             if it.d["k"] == "range":
                 return ret1(Md("iter", {"k": "range_rev", "pos": it.d["pos"], "end": it.d["end"]}), st)
+            if it.d["k"] == "slice":
+                return ret1(Md("iter", dict(it.d, k="slice_rev")), st)
+            if it.d["k"] == "zip":
+                a_, b_ = it.d["a"], it.d["b"]
+                if a_.d["k"] == "slice" and b_.d["k"] == "slice" and E.decide_cmp(st, "Eq", it_len(E, st, a_), it_len(E, st, b_)) is True:
+                    return ret1(Md("iter", {"k": "zip", "a": Md("iter", dict(a_.d, k="slice_rev")), "b": Md("iter", dict(b_.d, k="slice_rev"))}), st)
+                raise Unsupported("rev of a zip whose sides are not slices of provably equal length")
             if it.d["k"] == "arith":
                 cur, n, step = it.d["cur"], it.d["n"], it.d["step"]
                 c, nn = st.const(cur), st.const(n)
@@ -1225,6 +1328,18 @@ def m_iter_fold(E, st, fr, bi, callee, args, dest_ty):
     if c is None or c > max(64, E.ctx.hooks.get("exact_collect_max", 64)):
         return None
     states = [((UNIT if is_for_each else args[1]), it, st)]
+    # no case splits on bool-to-int casts inside the step function unless the rule works with known bits: the
+    # accumulator would fork at every step
+    saved_parts = E.ctx.max_parts
+    if not E.ctx.hooks.get("kbits_eager"):
+        E.ctx.max_parts = 0
+    try:
+        return _fold_steps(E, st, fr, bi, states, c, n, it, fn_arg, fty, is_for_each)
+    finally:
+        E.ctx.max_parts = saved_parts
+
+
+def _fold_steps(E, st, fr, bi, states, c, n, it, fn_arg, fty, is_for_each):
     with pinned(E.ctx, n, it, fn_arg):
         for _ in range(c):
             nxt = []
@@ -1953,6 +2068,8 @@ def build(ctx):
     A(r"^<bit_vec::Iter<.*> as std::iter::Iterator>::next$", m_iter_next)
     A(r"^core::slice::<impl \[.*\]>::chunks$", m_slice_chunks)
     A(r"^(core|std)::slice::<impl \[.*\]>::split_at$", m_split_at)
+    A(r"^(core|std)::slice::<impl \[.*\]>::copy_from_slice$", m_copy_from_slice)
+    A(r"^(core|std)::slice::<impl \[.*\]>::chunks_exact$", m_slice_chunks_exact)
     for _k in ("first", "last", "split_first", "split_last"):
         A(rf"^(core|std)::slice::<impl \[.*\]>::{_k}$", m_slice_ends(_k))
     A(r"^<.* as itertools::Itertools>::chunks$", m_iter_adapt("chunks"))
